@@ -68,9 +68,14 @@ def _close(a, b, tol=1e-9):
     return err <= tol * (AMP['scale'] + float(np.abs(b).max())), 'max abs err %.3g' % err
 
 
+EFF = {}          # the sizes the current evaluation REALLY used (after clamping / wavelet lookup): read by the known-finding predicates
+
+
 def _sz(sizes, k, default, lo=1, hi=40):
     v = int(sizes.get(k, default))
-    return max(lo, min(hi, v))
+    v = max(lo, min(hi, v))
+    EFF[k] = v
+    return v
 
 
 def spec_dwt_axis(x, h0, h1, mode, d):
@@ -139,6 +144,8 @@ def check_afb1d(cfg, sizes, rnd):
     a0, h0 = _filt(rnd, L, d)
     a1, h1 = _filt(rnd, L, d)
     N = x.shape[d]
+    EFF.clear()
+    EFF.update(N=int(N), Lc=L, J=1)          # only the filtered axis matters
     try:
         got = lowlevel.afb1d(x, h0, h1, mode=mode, dim=dim)
     except Exception as e:
@@ -163,6 +170,8 @@ def check_sfb1d(cfg, sizes, rnd):
     a1, g1 = _filt(rnd, L, d)
     m = 'periodization' if mode == 'per' else mode
     Nc = lo.shape[d]
+    EFF.clear()
+    EFF.update(N=2 * int(Nc), Lc=L, J=1)          # analysis-side length of the filtered axis
     if m != 'periodization' and 2 * Nc - L + 2 < 1:
         return True, 'outside precondition (empty output)'
     try:
@@ -188,9 +197,10 @@ def run_one(fn, cfg, sizes, seed):
     rnd = random.Random(seed)
     amp = cfg.get('amp', 'unit') if isinstance(cfg, dict) else 'unit'
     AMP['name'], AMP['scale'] = amp, AMPS[amp]
+    EFF.clear()
     try:
         ok, det = CHECKS[fn](cfg, sizes, rnd)
     except Exception as e:
         import traceback
         return {'ok': None, 'detail': 'checker error: ' + traceback.format_exc()[-800:]}
-    return {'ok': bool(ok), 'detail': det}
+    return {'ok': bool(ok), 'detail': det, 'eff': dict(EFF)}
